@@ -200,6 +200,103 @@ def extra(tier, seed, st):
             except Exception as e:
                 fails.append((name, "`gotree %s`: a valid size does not yield a tree with the requested tips (%s); output %r" %
                               (" ".join(argv), e, so[:80]), body))
+        _cli_outputs(d, seed, tier, fails, info)
     finally:
         shutil.rmtree(d, ignore_errors=True)
     return fails, info
+
+def _cli_outputs(d, seed, tier, fails, info):
+    """every `gotree generate <kind>`: output to stdout, to a fresh file, to an existing longer file and to an existing
+    shorter file must be byte-identical; the trees read back are judged (number of trees, tips, binary, distinct
+    topologies for `topologies`); output sizes below 4096, above 4096 and above 65536 bytes"""
+    def dfact(k):
+        r = 1
+        while k > 1:
+            r *= k
+            k -= 2
+        return r
+    jobs = []
+    for kind, flag, size, ntips in [("uniformtree", "-l", 20, 20), ("yuletree", "-l", 20, 20), ("caterpillartree", "-l", 20, 20),
+                                    ("balancedtree", "-d", 4, 16), ("startree", "-l", 20, 20)]:
+        for nb in (1, 12, 160):
+            for rooted in ([False, True] if kind != "startree" else [False]):
+                if nb == 160 and rooted:
+                    continue
+                jobs.append((kind, [flag, str(size), "-n", str(nb)] + (["-r"] if rooted else []), nb, ntips, rooted))
+    for l, rooted in [(5, False), (7, False), (8, False), (4, True), (6, True)]:
+        jobs.append(("topologies", ["-l", str(l)] + (["-r"] if rooted else []), dfact(2 * l - 3) if rooted else dfact(2 * l - 5), l, rooted))
+    sizes = {"small": 0, "over4096": 0, "over65536": 0}
+    for i, (kind, args, ntrees, ntips, rooted) in enumerate(jobs):
+        base = ["generate", kind] + args + ["--seed", str(seed % 100000 + i)]
+        name = "cli-output %s %s" % (kind, " ".join(args))
+        rc, so, se = cli.run(base, d, timeout=120)
+        body = {"argv": base, "rc": rc, "stderr": se.decode("utf-8", "replace")[:300]}
+        info["evaluations"] += 4
+        if rc != 0 or not so:
+            fails.append((name, "`gotree %s` failed or printed nothing (rc %d)" % (" ".join(base), rc), body))
+            continue
+        sizes["small" if len(so) < 4096 else "over4096" if len(so) < 65536 else "over65536"] += 1
+        bad = None
+        for variant, prefill in [("a fresh file", None), ("an existing longer file", b"x" * (len(so) + 5000)), ("an existing shorter file", b"y" * 10)]:
+            f = os.path.join(d, "out-%d-%s.nw" % (i, variant.split()[-2]))
+            if os.path.exists(f):
+                os.remove(f)
+            if prefill is not None:
+                open(f, "wb").write(prefill)
+            rc2, so2, se2 = cli.run(base + ["-o", f], d, timeout=120)
+            got = open(f, "rb").read() if os.path.exists(f) else b"<no file>"
+            if rc2 != 0 or got != so:
+                k = 0
+                while k < min(len(got), len(so)) and got[k] == so[k]:
+                    k += 1
+                bad = "written to %s the output differs from the one on stdout (rc %d, %d bytes instead of %d, first difference at byte %d)" % (
+                    variant, rc2, len(got), len(so), k)
+                break
+        if bad:
+            fails.append((name, "`gotree %s -o FILE`: %s" % (" ".join(base), bad), body))
+            continue
+        # the trees
+        try:
+            lines = [l for l in so.decode("utf-8", "replace").split("\n") if l.strip()]
+            if len(lines) != ntrees:
+                raise ValueError("%d trees instead of %d" % (len(lines), ntrees))
+            if kind == "topologies":
+                keys = set()
+                names = sorted("Tip%d" % (j + 1) for j in range(ntips))
+                for l in lines:
+                    t = _parse_newick(l.strip())
+                    if sorted(_tips(t)) != names or not _shape_ok(t, rooted):
+                        raise ValueError("not a binary tree on Tip1..Tip%d: %s" % (ntips, l[:60]))
+                    keys.add(_clade_key(t, rooted))
+                if len(keys) != ntrees:
+                    raise ValueError("%d distinct topologies among %d trees" % (len(keys), ntrees))
+            else:
+                names = sorted("Tip%d" % j for j in range(ntips))
+                for l in (lines if len(lines) <= 20 else lines[:10] + lines[-10:]):
+                    t = _parse_newick(l.strip())
+                    if sorted(_tips(t)) != names:
+                        raise ValueError("tips %s" % _tips(t)[:6])
+                    if kind != "startree" and not _shape_ok(t, rooted):
+                        raise ValueError("not binary / wrong root degree")
+            info["distinct_nontrivial"] += 1
+        except Exception as e:
+            fails.append((name, "`gotree %s`: %s" % (" ".join(base), e), body))
+    info["cli_output_sizes"] = sizes
+
+def _leafset(t):
+    return frozenset([t]) if isinstance(t, str) else frozenset().union(*[_leafset(c) for c in t])
+
+def _clade_key(t, rooted):
+    allt = _leafset(t)
+    acc = set()
+    def walk(x):
+        if isinstance(x, str):
+            return
+        for c in x:
+            acc.add(_leafset(c))
+            walk(c)
+    walk(t)
+    if rooted:
+        return frozenset(c for c in acc if c != allt)
+    least = min(allt)
+    return frozenset((allt - c) if least in c else c for c in acc)
